@@ -1231,7 +1231,15 @@ pub fn replay(case: &Value) -> i32 {
     println!("machinery: replay is not deterministic");
     return 2;
   }
-  for l in &a.trace {
+  // a hang repeats its last loop iteration hundreds of times: show the head and the tail only
+  let n = a.trace.len();
+  for (i, l) in a.trace.iter().enumerate() {
+    if n > 260 && i >= 220 && i < n - 12 {
+      if i == 220 {
+        println!("    ... {} further events (a wait loop repeating) ...", n - 232);
+      }
+      continue;
+    }
     println!("    {}", l);
   }
   if a.cap_hit {
